@@ -209,7 +209,25 @@ pub fn run(tier: &str, seed: u64, widen: bool) -> Report {
             // that they are identified by crate only; on valid programs (and for every other
             // stage or kind of failure) the exact site is the label
             let label = if v.class.starts_with("panic@") && *kind != "well-typed" && *kind != "probe" {
-                format!("panic-on-invalid-input@{}", v.class["panic@".len()..].split('/').next().unwrap_or("?"))
+                {
+                    // crate + the kind of failure (start of the panic message, digit runs collapsed): the
+                    // sites are too many to list one by one, the kinds are few (`known_findings.json`)
+                    let rest = &v.class["panic@".len()..];
+                    let krate = rest.split('/').next().unwrap_or("?");
+                    let msg = rest.splitn(2, ':').nth(1).unwrap_or("");
+                    // `byte index 5 is out of bounds of `<source text>`` and the like: drop the quoted input
+                    let msg = msg.split(" of `").next().unwrap_or(msg);
+                    // `main::lambda#main #7 : `void` is not weak replaceable by …`: drop the location prefix
+                    let msg = if let Some(p) = msg.find(" : `") { &msg[p + 3..] } else { msg };
+                    let mut kind_of = String::new();
+                    for c in msg.chars().take(40) {
+                        if c == '#' && kind_of.ends_with('#') {
+                            continue;
+                        }
+                        kind_of.push(c);
+                    }
+                    format!("panic-on-invalid-input@{krate}:{}", kind_of.trim())
+                }
             } else {
                 v.class.clone()
             };
